@@ -1965,6 +1965,22 @@ static void cmd_sidedit(char **tok, int ntok)
     if (!sl) { emit_begin(&g_out, "skip", NULL); sb_printf(&g_out, ",\"why\":\"no such sid\""); emit_end(&g_out); return; }
     sid = sl->sid;
     if ((v = opt_get(tok, ntok, "idlen"))) { int n = atoi(v); if (n >= 0 && n <= SSL_MAX_SESSION_ID_SIZE && sid->idLen > 0) { sid->idLen = (psSize_t) n; done = 1; } }
+    if ((v = opt_get(tok, ntok, "idfrom")))
+    {   /* the session id of another handle (e.g. learnt from the wire) next to this handle's own secret / ticket */
+        sidslot_t *o = sid_find(v);
+        if (o && o->sid->idLen > 0) { memcpy(sid->id, o->sid->id, o->sid->idLen); sid->idLen = o->sid->idLen; done = 1; }
+    }
+    if ((v = opt_get(tok, ntok, "idep")))
+    {   /* the session id a live server endpoint has assigned (it travels in the clear in its ServerHello) */
+        ep_t *o = ep_get(v);
+        if (o->ssl && o->ssl->sessionIdLen > 0) { memcpy(sid->id, o->ssl->sessionId, o->ssl->sessionIdLen); sid->idLen = o->ssl->sessionIdLen; done = 1; }
+    }
+    if ((v = opt_get(tok, ntok, "msep")))
+    {   /* the master secret a live endpoint currently holds (a client knows the one it has just agreed on) */
+        ep_t *o = ep_get(v);
+        if (o->ssl) { memcpy(sid->masterSecret, o->ssl->sec.masterSecret, SSL_HS_MASTER_SIZE); done = 1; }
+    }
+    if ((v = opt_get(tok, ntok, "mszero")) && atoi(v)) { memset(sid->masterSecret, 0, SSL_HS_MASTER_SIZE); done = 1; }
     if ((v = opt_get(tok, ntok, "idxor"))) { edit_arg(v, &off, &val); if (off < 0) off += sid->idLen; if (off >= 0 && off < (int) sid->idLen) { sid->id[off] ^= (unsigned char) val; done = 1; } }
     if ((v = opt_get(tok, ntok, "msxor"))) { edit_arg(v, &off, &val); if (off >= 0 && off < SSL_HS_MASTER_SIZE) { sid->masterSecret[off] ^= (unsigned char) val; done = 1; } }
 #ifdef USE_STATELESS_SESSION_TICKETS
